@@ -74,7 +74,12 @@ fn small_conf(r: &mut Rng, sync: &SyncMode) -> Conf {
 
 pub fn gen_plan(r: &mut Rng, o: &PlanOpts) -> Plan {
     let conf = small_conf(r, &o.sync);
-    let keys = draw_keys(r, false, o.big_ok);
+    let mut keys = draw_keys(r, false, o.big_ok);
+    // plans are rerun once per crash point or fault position: keys beyond the 64 KiB sizes would
+    // multiply hundreds of reruns by megabytes per operation (C20 took 4 minutes at one seed)
+    for k in keys.iter_mut() {
+        k.truncate(70_000);
+    }
     let n = r.range(o.min_ops, o.max_ops);
     let mut ops = Vec::new();
     let mut counter = 0u64;
